@@ -25,9 +25,11 @@ PAIRS = [
     (("concat", "filename"), b'x strlen "a.e"+"xe" y', b'"fo" & "o" StrLen'),
     (("concat", "filename"), b'"a" + "b" strlen', b'"a" + "b" strlen'),
     (("shell", "network", "base64"), b"cmd /c p^owershell -e ZQBjAGgAbwAgAGIAZQBlAA==", b"http://ex%61mple.com/a/../b?q#f 8.8.4.4 strlen"),
+    (("base64", "hex", "powershell"), b"FromBase64String('R1ZASA==') -bxor 35", b"FromBase64String('R1ZASA==') -bxor 35"),
+    (("base64", "hex", "powershell"), b"x FromBase64String('R1ZASA==')\n-bxor 35", b"FromHexString('4756404803444c4650035256424048') plain"),
     (("xml", "hex", "path", "vba"), b"&#104;&#116;&#116;&#112;&#58;&#47;&#47;&#97;&#46;&#99;&#111; StrReverse('exe.a') StrLen", b"\\\\a.com\\abc\\x.exe 687474703a2f2f6578616d706c652e636f6d"),
 ]
-BOUND = {"quick": {0: 1, 1: 1, 2: 1, 3: 1}, "thorough": {0: 2, 1: 2, 2: 1, 3: 1}}
+BOUND = {"quick": {0: 1, 1: 1, 2: 1, 3: 1, 4: 1, 5: 1}, "thorough": {0: 2, 1: 2, 2: 1, 3: 1, 4: 2, 5: 1}}
 CHUNK = {"quick": 64, "thorough": 12}
 _B64_2 = b"YUhSMGNEb3ZMMlY0WVcxd2JHVXVZMjl0TDJFdVpYaGxJRGd1T0M0MExqUT0="  # base64(base64("http://example.com/a.exe 8.8.4.4"))
 HIST_INPUTS = [b'x strlen "a.e"+"xe" y', b"x cmd /c ping 8.8.4.4 http://a.com/b.exe bob@example.org StrLen \\\\a.com\\abc\\x.dll 'a'+'b'",
@@ -43,7 +45,7 @@ SHIPPED_KW = os.path.join(os.path.dirname(multidecoder.__file__), "keywords")
 def describe(tier):
     return {
         "rule": (
-            "E4 schedx, four exhaustive explorations. (1) Threads: 4 harnesses of 2 threads sharing ONE Multidecoder built by the real build_registry; every "
+            "E4 schedx, four exhaustive explorations. (1) Threads: 6 harnesses of 2 threads (incl. the same xor-keyed input in both threads and an xor-keyed against an xor-free input) sharing ONE Multidecoder built by the real build_registry; every "
             "`line` event in multidecoder frames is a scheduling point; ALL schedules with <= B preemptions are executed (iterative context bounding, B per "
             f"harness = {BOUND[tier]}); oracle: each thread's tree equals the tree of the same input computed sequentially beforehand, and a sequential "
             "scan on the shared scanner afterwards is still correct; a replayed prefix that diverges is a hard error. (2) Histories: BFS over ALL sequences "
@@ -95,7 +97,8 @@ def plan(tier, seed):
             units.append(("threads", tier, pi, lo, min(n, lo + step)))
     units += [("history", tier, i, 7) for i in range(7)]
     from mdmc.engines import streams
-    units += [("twice", u) for u in streams.plan(tier, lite=1 if tier == "quick" else 0, fams=["mix", "shell", "net", "concat", "kw"])]
+    units += [("twice", u) for u in streams.plan(tier, lite=0, fams=["mix", "ctx"])]
+    units += [("twice", u) for u in streams.plan(tier, lite=1 if tier == "quick" else 0, fams=["shell", "net", "concat", "kw", "esc", "b64hex"])]
     units += [("orders-fixture", i, 8) for i in range(8)]
     units += [("orders-shipped", i, 8) for i in range(8)]
     units.append(("seeds", tier))
